@@ -380,12 +380,17 @@ func runRT(cfg vsched.Config, sc *RTScn, twice bool) *RTResult {
 					s.Inject = append(s.Inject, Inject{OnTTL: s.First, AnswerTTL: s.First, Form: form, From: SackAddr.String(), DelayUs: 2500, Tag: "teardown"})
 				}
 			}
-		case "plain-acks", "plain-acks-with-timestamps":
+		case "plain-acks", "plain-acks-with-timestamps", "plain-acks-with-payload":
 			// (with timestamps: both options were negotiated, the acknowledgements carry NOP NOP TIMESTAMPS and no SACK option)
 			form := "plainack"
 			if sc.Capability == "plain-acks-with-timestamps" {
 				form = "plainackTS"
 				spec.Timestamps = true
+			}
+			if sc.Capability == "plain-acks-with-payload" {
+				// a server that speaks first: every segment of the traced connection carries data (its banner and the
+				// retransmissions of it) and acknowledges without SACK blocks
+				form = "tcppshack"
 			}
 			for _, s := range scns {
 				if s.Variant == "sack" {
